@@ -129,6 +129,27 @@ def check_property(pid, tier, seed, args, t0):
             else:
                 undecided.append((l, rep))
 
+    # functions the interpreter could not analyse any more (construct outside the subset) and whose
+    # obligations were discharged on the baseline: undecided, unless the replay template of the
+    # function finds a failing input on the real code
+    missing_by_func = {}
+    for l in missing:
+        missing_by_func.setdefault(l.split('/')[0], []).append(l)
+    still_missing = []
+    for fn, labels in sorted(missing_by_func.items()):
+        rep = {'func': fn, 'kind': 'missing', 'label': 'analysable', 'name': labels[0],
+               'status': 'undecided', 'model': None,
+               'reason': 'function no longer within the verified subset: '
+                         + '; '.join(u for u in unsupported if fn.split('#')[0] in u)[:300]}
+        if fn not in replay_cache:
+            replay_cache[fn] = CLI.run_replay(pid, labels[0], rep, tier, seed)
+        if replay_cache[fn].get('reproduced'):
+            violations.append((labels[0], rep, 'obligations of %s can no longer be generated, and '
+                               'the replay template found a failing input on the real code' % fn))
+        else:
+            still_missing.extend(labels)
+    missing = still_missing
+
     # bounded stand-ins (never counted as proved)
     bounded = run_bounded(pid, tier, seed)
     for b in bounded:
